@@ -27,7 +27,7 @@ def oracle(chk, p, r, m):
     for b in r["dump"]:
         if b["decision"] == "dep-cycle":
             chk.count("dep-cycle-dropped")
-            if f"out/{b['builder']}/{b['app']}/" in r["ninja"]:
+            if f"out/{b['builder']}/{b['app']}/{b['app']}.elf" in r["ninja"]:
                 chk.fail_oracle("order:cycle-emitted", f"{b['builder']}/{b['app']} has a build-dependency cycle but statements were emitted", {"project": p})
     for b in projcheck.built(r):
         key = (b["builder"], b["app"])
